@@ -43,8 +43,8 @@ class C20(Spec):
                   "canary / ASan run under the controlled scheduler.")
     level_note = ("Trusted: Coq kernel; extraction; hand transcription ThreadModel.v; vsched shim (the std::thread inside tulz::Thread is the "
                   "controlled one); canary callables and ASan (detect_stack_use_after_return). Modelled, not verified: C++ object lifetime "
-                  "and lambda capture semantics; the window in which the new thread runs while the starter is still inside start() "
-                  "cannot be scheduled on the unmodified source and is covered by the theorem only.")
+                  "and lambda capture semantics; the std::thread constructor of the shim is a scheduling point, so the window in which the new thread runs while the "
+                  "starter is still inside start() is exercised too.")
     technique = "Coq proof over a lifetime model of Thread::start + schedule correspondence with canary callables on the real code"
     assumptions = ("arguments passed to start() are caller-owned lvalues that outlive join() (the property's quantifier); the callable terminates",)
     trusted_extra = ("ThreadModel.v is a hand transcription of Thread.h / Thread.cpp; harness/thread.cpp (canaries, stack clobbering)",)
